@@ -2,7 +2,9 @@ package main
 
 import (
 	"fmt"
+	"go/constant"
 	"go/token"
+	"go/types"
 	"sort"
 	"strings"
 
@@ -18,9 +20,9 @@ func init() {
 			"(2) the cursor has no other writer than the constructor, ApplyEntries and Reset, and Reset is only called with the applier's own applied position; the acknowledged positions on both sides only move forward (>-guarded stores); " +
 			"(3) the applied sequence the replica reports is only ever assigned from ApplyEntries' result or GetMaxApplied(); " +
 			"(4) the replication entry encoding: SerializeWALEntry and DeserializeWALEntry agree field by field (offset, width, byte order, type guard) and the decoder stores every decoded field into the entry field the encoder took it from; " +
-			"(5) a stream response claims Compressed only for payloads that went through Compress; (6) EngineApplier writes through the *Internal entry points when the engine is read-only.",
+			"(5) a stream response claims Compressed only for payloads that went through Compress; Compress and Decompress handle the same codecs with inverse library calls; (6) EngineApplier writes through the *Internal entry points when the engine is read-only and, per entry type (P-ORD walk), performs the operation the primary performed with the entry's own key and value.",
 		NotDecided: "all delivery schedules (reordering, duplication, overlap of push and poll, reconnects); equality of replica state with a primary prefix; the primary's choice of what to send.",
-		Rules:      []func(*Ctx, *Reporter){ruleReplCursor, ruleReplCursorWriters, ruleReplReported, ruleReplEntryCodec, ruleReplCompressionFlag, ruleReplApplyBypass},
+		Rules:      []func(*Ctx, *Reporter){ruleReplCursor, ruleReplCursorWriters, ruleReplReported, ruleReplEntryCodec, ruleReplCompressionFlag, ruleReplApplyBypass, ruleReplCompressionSiblings, ruleReplApplierWiring},
 	})
 }
 
@@ -739,4 +741,188 @@ func applyLoopTable(fn *ssa.Function, loop *GenericLoop, entries ssa.Value, appl
 		out[fmt.Sprintf("d%+d", d)] = run(1, d)
 	}
 	return out
+}
+
+// ---------------------------------------------------------------- compression siblings, applier wiring
+
+// ruleReplCompressionSiblings: Compress and Decompress handle the same codec set with inverse library calls.
+func ruleReplCompressionSiblings(c *Ctx, r *Reporter) {
+	r.Rule("compression-siblings", 3)
+	comp := c.Func("pkg/replication", "CompressionManager", "Compress")
+	deco := c.Func("pkg/replication", "CompressionManager", "Decompress")
+	if comp == nil || deco == nil || len(comp.Params) < 3 || len(deco.Params) < 3 {
+		r.Unresolved("replication.CompressionManager.Compress / Decompress", "not found")
+		return
+	}
+	inverse := map[string]string{"": "", "EncodeAll": "DecodeAll", "Encode": "Decode"}
+	libCall := func(fn *ssa.Function, codec int64) (string, string) {
+		one := int64(1)
+		sc := &Scenario{Terms: map[string]int64{}, Bools: map[string]bool{}, Vals: map[ssa.Value]int64{fn.Params[2]: codec}, BoolVals: map[ssa.Value]bool{}, DefaultInt: &one}
+		AllInstrs(fn, false, func(_ *ssa.Function, ins ssa.Instruction) {
+			if ex, ok := ins.(*ssa.Extract); ok && isErrorType(ex.Type()) {
+				sc.Vals[ex] = NilRank // library calls succeed
+			}
+		})
+		res := EvalPath(fn.Blocks[0], nil, sc, nil)
+		if res.Err != "" {
+			return "", "undecided: " + res.Err
+		}
+		name := ""
+		for _, e := range res.Effects {
+			if e.Kind != "call" {
+				continue
+			}
+			call, ok := e.Ins.(*ssa.Call)
+			if !ok {
+				continue
+			}
+			if f := call.Call.StaticCallee(); f != nil && f.Pkg != nil && !strings.HasPrefix(f.Pkg.Pkg.Path(), modPath) {
+				p := f.Pkg.Pkg.Path()
+				if strings.Contains(p, "zstd") || strings.Contains(p, "snappy") {
+					name = f.Name()
+				}
+			}
+		}
+		ret := "data"
+		if res.Ret != nil && len(res.RetVals) == 2 && res.RetVals[1].Kind == "int" && res.RetVals[1].I != NilRank {
+			ret = "error"
+		} else if res.Ret != nil && len(res.RetPaths) == 2 && !strings.HasPrefix(res.RetPaths[1], "nil") && res.RetVals[1].Kind != "int" {
+			ret = "error"
+		}
+		return name, ret
+	}
+	codecs := map[int64]string{0: "NONE", 1: "ZSTD", 2: "SNAPPY", 7: "unknown"}
+	for _, k := range []int64{0, 1, 2, 7} {
+		cn, cr := libCall(comp, k)
+		dn, dr := libCall(deco, k)
+		cons := "replication.CompressionManager:codec[" + codecs[k] + "]"
+		if strings.HasPrefix(cr, "undecided") || strings.HasPrefix(dr, "undecided") {
+			r.Undecided(cons, c.FnPos(comp), cr+" / "+dr)
+			continue
+		}
+		want, known := inverse[cn]
+		ok := known && dn == want && cr == dr
+		if k == 7 {
+			ok = cn == "" && dn == "" && cr == "error" && dr == "error"
+		}
+		r.Check(ok, cons, c.FnPos(deco), fmt.Sprintf("Compress: %s→%s, Decompress: %s→%s", orDash(cn), cr, orDash(dn), dr),
+			fmt.Sprintf("Compress handles codec %s with %s (→%s) but Decompress with %s (→%s): not inverse operations", codecs[k], orDash(cn), cr, orDash(dn), dr))
+	}
+}
+
+func orDash(s string) string {
+	if s == "" {
+		return "identity"
+	}
+	return s
+}
+
+// ruleReplApplierWiring: per entry type, which engine operation the applier performs and with which arguments.
+func ruleReplApplierWiring(c *Ctx, r *Reporter) {
+	r.Rule("applier-wiring", 10)
+	put, del, merge := int64(1), int64(2), int64(3)
+	for _, k := range []struct {
+		n string
+		v *int64
+	}{{"OpTypePut", &put}, {"OpTypeDelete", &del}, {"OpTypeMerge", &merge}} {
+		if kc := c.Const("pkg/wal", k.n); kc != nil {
+			if v, ok := constantInt(kc); ok {
+				*k.v = v
+			}
+		} else {
+			r.Unresolved("wal."+k.n, "constant not found")
+			return
+		}
+	}
+	type row struct {
+		typ    int64
+		name   string
+		assert bool
+		want   string
+	}
+	for _, fnName := range []string{"applyInReadOnlyMode", "applyInNormalMode"} {
+		fn := c.Func("pkg/replication", "EngineApplier", fnName)
+		if fn == nil || len(fn.Params) < 2 {
+			r.Unresolved("replication.EngineApplier."+fnName, "not found")
+			continue
+		}
+		entry := fn.Params[1]
+		rows := []row{
+			{put, "put", true, "PutInternal(Key,Value)"}, {del, "delete", true, "DeleteInternal(Key)"}, {merge, "merge", true, "Put(Key,Value)"},
+			{put, "put/no-bypass", false, "Put(Key,Value)"}, {del, "delete/no-bypass", false, "Delete(Key)"}, {99, "unknown", true, "error"},
+		}
+		if fnName == "applyInNormalMode" {
+			rows = []row{{put, "put", true, "Put(Key,Value)"}, {del, "delete", true, "Delete(Key)"}, {merge, "merge", true, "Put(Key,Value)"}, {99, "unknown", true, "error"}}
+		}
+		for _, rw := range rows {
+			one := int64(1)
+			sc := &Scenario{Terms: map[string]int64{}, Bools: map[string]bool{}, Vals: map[ssa.Value]int64{}, BoolVals: map[ssa.Value]bool{}, DefaultInt: &one}
+			AllInstrs(fn, false, func(_ *ssa.Function, ins ssa.Instruction) {
+				v, ok := ins.(ssa.Value)
+				if !ok {
+					return
+				}
+				if ld, ok := ins.(*ssa.UnOp); ok && ld.Op == token.MUL {
+					if fa, ok := ld.X.(*ssa.FieldAddr); ok && fa.X == ssa.Value(entry) && fieldName(fa) == "Type" {
+						sc.Vals[v] = rw.typ
+					}
+				}
+				if ex, ok := ins.(*ssa.Extract); ok {
+					if _, isTA := ex.Tuple.(*ssa.TypeAssert); isTA && ex.Index == 1 {
+						// the *Internal interfaces are present iff rw.assert; SetReadOnly is always there
+						ta := ex.Tuple.(*ssa.TypeAssert)
+						has := strings.Contains(ta.AssertedType.String(), "Internal")
+						if has {
+							sc.BoolVals[v] = rw.assert
+						} else {
+							sc.BoolVals[v] = true
+						}
+					}
+				}
+			})
+			res := EvalPath(fn.Blocks[0], nil, sc, nil)
+			cons := fmt.Sprintf("replication.EngineApplier.%s[%s]", fnName, rw.name)
+			if res.Err != "" {
+				r.Undecided(cons, c.FnPos(fn), res.Err)
+				continue
+			}
+			var got []string
+			for _, e := range res.Effects {
+				call, ok := e.Ins.(*ssa.Call)
+				if !ok || !call.Call.IsInvoke() {
+					continue
+				}
+				m := call.Call.Method.Name()
+				switch m {
+				case "Put", "Delete", "PutInternal", "DeleteInternal", "ApplyBatch", "Get":
+					var as []string
+					for _, a := range call.Call.Args {
+						f := ""
+						if ld, ok := a.(*ssa.UnOp); ok && ld.Op == token.MUL {
+							if fa, ok := ld.X.(*ssa.FieldAddr); ok && fa.X == ssa.Value(entry) {
+								f = fieldName(fa)
+							}
+						}
+						if f == "" {
+							f = "?" + Path(a)
+						}
+						as = append(as, f)
+					}
+					got = append(got, m+"("+strings.Join(as, ",")+")")
+				}
+			}
+			g := strings.Join(got, " ")
+			if g == "" && res.Ret != nil {
+				v := ReturnValue(res.Ret, 0)
+				if !isNilConst(v) {
+					g = "error"
+				}
+			}
+			r.Check(g == rw.want, cons, c.FnPos(fn), g, fmt.Sprintf("a replicated %s entry is applied as [%s], the primary performed [%s]", rw.name, g, rw.want))
+		}
+	}
+}
+
+func constantInt(k *types.Const) (int64, bool) {
+	return constant.Int64Val(constant.ToInt(k.Val()))
 }
